@@ -76,7 +76,8 @@ pub fn sample_sweep_units(samples: &Samples, thorough: bool) -> Vec<(usize, bool
     let mut v = Vec::new();
     for (relaid, pool) in [(false, &samples.raw), (true, &samples.relaid)] {
         for (i, (_, b)) in pool.iter().enumerate() {
-            if thorough {
+            // quick: every prefix of the samples up to 20 KiB; boundary-biased above
+            if thorough || b.len() <= 20_000 {
                 let chunk = 2048;
                 let mut lo = 0;
                 while lo < b.len() {
